@@ -26,7 +26,7 @@ for pid in ids:
             "text": P.get("level_text", "Every listed obligation (postcondition, invariant, lemma, panic/overflow freedom) of the functions this property depends on is discharged for all inputs by a deductive verifier on the real function bodies; the parts of the mechanism that are not under contract are named as glue."),
             "design_ref": P.get("design_ref", "DESIGN.md §5"),
         },
-        "level_note": "Trusted: extraction rules R1-R30 (DESIGN.md §2.1), vstd library specs, assumed specs listed in evidence.trusted_base. Unverified glue: " + "; ".join(P.get("glue", [])),
+        "level_note": "Trusted: extraction rules R1-R31 (DESIGN.md §2.1), vstd library specs, assumed specs listed in evidence.trusted_base. Unverified glue: " + "; ".join(P.get("glue", [])),
         "technique": "contract-based deductive verification (" + " + ".join(backends) + ")",
     })
 na = []
